@@ -155,12 +155,13 @@ func genCompLine(t *rapid.T, spec *ProgSpec) string {
 	}
 	if len(lv.Spec.ArgSugg) > 0 && !strings.HasPrefix(last, "-") && rapid.Bool().Draw(t, "cl_sugg") {
 		// a non-empty start of a static argument suggestion: some suggestions are filtered out, others kept
-		k := rapid.SampledFrom(lv.Spec.ArgSugg).Draw(t, "cl_suggword")
-		cut := rapid.IntRange(1, len(k)).Draw(t, "cl_suggcut")
-		for !isRuneBoundary(k, cut) {
-			cut--
+		if k := rapid.SampledFrom(lv.Spec.ArgSugg).Draw(t, "cl_suggword"); k != "" {
+			cut := rapid.IntRange(1, len(k)).Draw(t, "cl_suggcut")
+			for cut < len(k) && !isRuneBoundary(k, cut) {
+				cut++
+			}
+			last = k[:cut]
 		}
-		last = k[:cut]
 	}
 	return strings.Join(words, " ") + " " + last
 }
